@@ -138,7 +138,11 @@ void vt_errfn(const char *message, void *arg, vnaerr_category_t cat)
 	vt_cb.last[sizeof(vt_cb.last) - 1] = '\0';
     }
     vt_in_lib = in;
-    errno = saved;
+    /* vnaerr(3): "The library sets errno before calling error_fn and again
+     * [after it returns]" -- a user's error function may change errno, so
+     * this one always does; the value seen on entry is kept for the record */
+    vt_cb.errno_at_entry = saved;
+    errno = E2BIG;
 }
 
 void vt_put_cb(void)
